@@ -3,67 +3,114 @@ import NA.Gen.CiscoFacts
 /-!
 # C07 — configuration outside Netspoc's scope is never deleted or altered (Cisco share)
 
-`deleteUnused w` is the model of the final clean-up of `cisco/diff.go` on an abstract object graph.
-* `deleted_only_candidates`: every object it removes is not needed and is (marked to-delete or
-  carries the generated-name tag), and is not in `still w` (reachable from an untouched untagged
-  object through not-needed objects) — for every world.
-* `still_contains_direct_refs` / `still_closed_step`: `still` really contains what untouched objects
-  reference, and is closed under following references of not-needed objects (up to the fuel).
-* `referencing_candidates_go_too`: a removed object is never left behind referenced by a candidate
-  that stays.
-* the `*_guard*` theorems are about facts REGENERATED from the current source on every run: the
-  conditions of `deleteUnused`, the early returns for `aaa-server`, `ldap attribute-map`, `interface`
-  in `addCmd`/`delCmds`/`markDeleted`, and the `chgVRF` guard of `diffRoutes`.
-PAN-OS (`pan_scope`) and NSX (`nsx_scope`) are in `NA.Props.C03` / `NA.Props.C04`.
+`deleteUnused w` is the model of the final clean-up of `cisco/diff.go` on a table of device commands with
+the marks the engine has set (`needed`, `toDelete`) — EXECUTED against the real `(*State).deleteUnused`
+on every run (hook `cisco.VerifDeleteUnused`, stream "deleteUnused on a synthetic command table" of
+harness/asacfg).  That the engine sets the marks right is the business of the engine models
+(`NA.Props.F1`, `NA.Props.F2`, `NA.Props.VpnGraph`: `graph_unmanaged_untouched`, …).
+
+For every table and every terminating run:
+* `deleted_only_candidates`: every command it removes is not needed and is marked to-delete or filed under
+  a generated (`-DRC-`) name, and its entry is not in `still w`;
+* `protected_never_deleted` (with `still_complete`): an entry reachable — over a reference walk of ANY
+  length — from a command that is not needed, not marked and not generated ("initially wasn't created by
+  Netspoc"), through commands that are not needed, is in no round; the `|w|+1` levels the model follows
+  are the whole closure (cycles are cut out of the walk, a duplicate-free walk has at most `|w|` entries);
+* `untouched_command_never_deleted`: such a command itself is never removed unless its entry is removed as
+  a whole by `clear configure` (`clear_wipes_whole_entry` is the kernel-evaluated witness: one marked and
+  one untouched command under one name that has `clearConf` — the engine never marks the commands of
+  such an entry differently);
+* `deleted_after_referrers` (C08): when an entry is removed, nothing removed in the same or a later round
+  references it; `all_candidates_deleted`: no candidate outside `still w` is left behind.
+The `*_guard*` theorems are about facts REGENERATED from the current source on every run.
+PAN-OS (`panos_outside_vsys_untouched`) and NSX (`nsx_scope`) are in `NA.Props.C03` / `NA.Props.C04`.
 -/
 namespace NA.DelUnused
 
-theorem deleted_only_candidates (w : World) (rs : List (List Nat)) (h : deleteUnused w = some rs) :
-    ∀ r ∈ rs, ∀ x ∈ r, ∃ o ∈ w, o.id = x ∧ o.needed = false ∧ (o.toDelete = true ∨ o.tagged = true) ∧
-      x ∉ still w := by
-  intro r hr x hx
-  obtain ⟨o, ho, hid⟩ := (rounds_sound _ _ _ h).1 r hr x hx
-  simp only [toDelete0, List.mem_filter, candidate, Bool.and_eq_true, Bool.not_eq_true',
-    Bool.or_eq_true, List.contains_eq_mem, decide_eq_false_iff_not] at ho
-  exact ⟨o, ho.1, hid, ho.2.1.1, ho.2.1.2, hid ▸ ho.2.2⟩
+/-- Every command a terminating run removes is a candidate, and its entry is not protected. -/
+theorem deleted_only_candidates (w : World) (rs : List (List Item)) (h : deleteRounds w = some rs) :
+    ∀ r ∈ rs, ∀ it ∈ r, ∃ o ∈ w, it.id = o.id ∧ o.id ∉ still w ∧
+      ∀ p ∈ it.del, o.cmds[p.2]? = some p.1 ∧ p.1.needed = false ∧ (p.1.toDelete = true ∨ o.tagged = true) := by
+  intro r hr it hit
+  obtain ⟨o, ho, hid, _, _, hdel, _, hst⟩ := mem_items0 w it ((rounds_sound _ _ _ h).1 r hr it hit)
+  refine ⟨o, ho, hid, hst, ?_⟩
+  intro p hp
+  rw [hdel, List.mem_filter] at hp
+  have hidx := List.mem_zipIdx_iff_getElem?.mp hp.1
+  have hd := hp.2
+  simp only [isDel, Bool.and_eq_true, Bool.not_eq_true', Bool.or_eq_true] at hd
+  exact ⟨hidx, hd.1, hd.2⟩
 
-theorem referencing_candidates_go_too (w : World) (rs : List (List Nat)) (h : deleteUnused w = some rs) :
-    ∀ r ∈ rs, ∀ x ∈ r, ∀ o ∈ toDelete0 w, x ∈ o.refs → ∃ r' ∈ rs, o.id ∈ r' :=
-  (rounds_sound _ _ _ h).2
+/-- The closure is complete: whatever a reference walk of any length reaches from a command "not created
+by Netspoc" through not-needed commands is in `still w`. -/
+theorem still_complete (w : World) (o : Obj) (c : Cmd) (r x : Nat) (l : List Nat) (ho : o ∈ w)
+    (hc : c ∈ o.cmds) (hu : isUntouched o c = true) (hr : r ∈ c.followRefs) (hw : Walk w r x l) :
+    x ∈ still w :=
+  still_of_walk (mem_roots w o c r ho hc hu hr) hw
 
-theorem mem_stepRefs (w : World) (front : List Nat) (i r : Nat) (o t : Obj) (hi : i ∈ front)
-    (ho : find w i = some o) (hr : r ∈ o.refs) (ht : find w r = some t) (hn : t.needed = false) :
-    r ∈ stepRefs w front := by
-  simp only [stepRefs, List.mem_flatMap]
-  exact ⟨i, hi, by simp [ho, List.mem_filter, hr, ht, hn]⟩
+/-- … and therefore in no deletion round. -/
+theorem protected_never_deleted (w : World) (rs : List (List Item)) (h : deleteRounds w = some rs)
+    (o : Obj) (c : Cmd) (r x : Nat) (l : List Nat) (ho : o ∈ w) (hc : c ∈ o.cmds)
+    (hu : isUntouched o c = true) (hr : r ∈ c.followRefs) (hw : Walk w r x l) :
+    ∀ rd ∈ rs, ∀ it ∈ rd, it.id ≠ x := by
+  intro rd hrd it hit heq
+  obtain ⟨o', _, hid, hst, _⟩ := deleted_only_candidates w rs h rd hrd it hit
+  exact hst (hid ▸ heq ▸ still_complete w o c r x l ho hc hu hr hw)
 
-/-- What an untouched object references directly (and that is not needed) is protected. -/
-theorem still_contains_direct_refs (w : World) (o t : Obj) (r : Nat) (ho : o ∈ w) (hu : untouched o = true)
-    (hf : find w o.id = some o) (hr : r ∈ o.refs) (ht : find w r = some t) (hn : t.needed = false) :
-    r ∈ still w := by
-  simp only [still, stillFrom, List.mem_append]
-  left
-  exact mem_stepRefs w _ o.id r o t (by simp only [List.mem_map, List.mem_filter]; exact ⟨o, ⟨ho, hu⟩, rfl⟩) hf hr ht hn
+/-- A command that is needed, or neither marked nor generated, is never among the commands removed by a
+`no …` deletion (`huniq`: the entry's id is not used twice in the table). -/
+theorem untouched_command_never_deleted (w : World) (rs : List (List Item)) (h : deleteRounds w = some rs)
+    (o : Obj) (j : Nat) (c : Cmd) (huniq : ∀ o' ∈ w, o'.id = o.id → o' = o) (hc : o.cmds[j]? = some c)
+    (hk : c.needed = true ∨ isUntouched o c = true) :
+    ∀ rd ∈ rs, ∀ it ∈ rd, it.id = o.id → (c, j) ∉ it.del := by
+  intro rd hrd it hit hid hmem
+  obtain ⟨o', ho', hid', _, hall⟩ := deleted_only_candidates w rs h rd hrd it hit
+  have hoo : o' = o := huniq o' ho' (hid' ▸ hid)
+  subst hoo
+  obtain ⟨_, hn, hd⟩ := hall (c, j) hmem
+  rcases hk with hk | hk
+  · rw [hn] at hk; exact absurd hk (by decide)
+  · simp only [isUntouched, Bool.and_eq_true, Bool.not_eq_true', Bool.or_eq_false_iff] at hk
+    rcases hd with hd | hd
+    · rw [hk.2.1] at hd; exact absurd hd (by decide)
+    · rw [hk.2.2] at hd; exact absurd hd (by decide)
 
-/-- … and `stillFrom` keeps following references of not-needed objects while fuel lasts. -/
-theorem still_closed_step (w : World) (n : Nat) (front : List Nat) (i r : Nat) (o t : Obj)
-    (hi : i ∈ stepRefs w front) (ho : find w i = some o) (hr : r ∈ o.refs) (ht : find w r = some t)
-    (hn : t.needed = false) : r ∈ stillFrom w (n + 2) front := by
-  simp only [stillFrom, List.mem_append]
-  right; left
-  exact mem_stepRefs w _ i r o t hi ho hr ht hn
+/-- C08: when an entry is removed, nothing that is removed in the same or a later round references it. -/
+theorem deleted_after_referrers (w : World) (rs pre post : List (List Item)) (r : List Item)
+    (h : deleteRounds w = some rs) (hsplit : rs = pre ++ r :: post) :
+    ∀ x ∈ r, ∀ y ∈ (r :: post).flatten, x.id ∉ y.refs :=
+  (rounds_sound _ _ _ h).2.2 pre r post hsplit
 
-/-! Non-vacuity: a world with a needed object, a marked one, a tagged left-over, an untouched manual
-object protecting what it references. -/
+/-- No candidate outside `still w` is left behind. -/
+theorem all_candidates_deleted (w : World) (rs : List (List Item)) (h : deleteRounds w = some rs) :
+    ∀ it ∈ items0 w, ∃ r ∈ rs, it ∈ r :=
+  (rounds_sound _ _ _ h).2.1
+
+/-! Non-vacuity: a needed ACL with its group, a marked ACL with its group, a left-over generated object,
+a manual object protecting (over two hops) generated objects, an entry with a marked and an untouched line. -/
 def exW : World := [
-  ⟨1, true, false, false, [2]⟩,      -- ACL in use, references group 2
-  ⟨2, true, true, false, []⟩,       -- group shared with a deleted ACL: marked, but needed
-  ⟨3, false, true, false, [4]⟩,     -- old ACL, marked; references group 4
-  ⟨4, false, true, false, []⟩,      -- its group
-  ⟨5, false, false, true, []⟩,      -- left-over generated object
-  ⟨6, false, false, false, [7]⟩,    -- manual object …
-  ⟨7, false, false, true, []⟩]      -- … referencing a tagged object: protected
-example : deleteUnused exW = some [[3, 5], [4]] := by decide
+  ⟨1, 1, false, true, [⟨true, false, [2], []⟩]⟩,                 -- ACL in use, references group 2
+  ⟨2, 2, false, false, [⟨true, true, [], []⟩]⟩,                  -- group shared with a deleted ACL: marked, but needed
+  ⟨3, 1, false, true, [⟨false, true, [4], []⟩, ⟨false, true, [], []⟩]⟩,  -- old ACL (two lines), marked; references group 4
+  ⟨4, 2, false, false, [⟨false, true, [], []⟩]⟩,                 -- its group
+  ⟨5, 2, true, false, [⟨false, false, [], []⟩]⟩,                 -- left-over generated object
+  ⟨6, 3, false, false, [⟨false, false, [], [⟨false, [7]⟩]⟩]⟩,    -- manual object, a sub-command references 7
+  ⟨7, 3, true, false, [⟨false, false, [8], []⟩]⟩,                -- generated, but protected by 6
+  ⟨8, 2, true, false, [⟨false, false, [], []⟩]⟩,                 -- generated, protected over two hops
+  ⟨9, 4, false, false, [⟨false, true, [], []⟩, ⟨false, false, [], []⟩]⟩] -- one marked, one untouched command
+example : deleteUnused exW = some ["clear configure kind1 n003", "no kind2 n005-DRC-0 line0",
+    "no kind4 n009 line0", "no kind2 n004 line0"] := by decide
+example : still exW = [7, 8] := by decide
+example : Walk exW 7 8 [7, 8] :=
+  Walk.cons ⟨⟨7, 3, true, false, [⟨false, false, [8], []⟩]⟩, by decide, by decide⟩
+    ⟨⟨7, 3, true, false, [⟨false, false, [8], []⟩]⟩, ⟨false, false, [8], []⟩, by decide, by decide, by decide⟩
+    (Walk.single ⟨⟨8, 2, true, false, [⟨false, false, [], []⟩]⟩, by decide, by decide⟩)
+
+/-- `clear configure` removes an entry as a whole: the model (and the code) rely on the engine marking the
+commands of such an entry alike. -/
+theorem clear_wipes_whole_entry :
+    deleteUnused [⟨1, 1, false, true, [⟨false, true, [], []⟩, ⟨false, false, [], []⟩]⟩] =
+      some ["clear configure kind1 n001"] := by decide
 
 /-! ### Facts regenerated from the current source -/
 open NA.Gen.CiscoFacts
@@ -102,8 +149,10 @@ end NA.DelUnused
 
 namespace NA.C07
 def obligations : List Lean.Name := [
-  ``NA.DelUnused.deleted_only_candidates, ``NA.DelUnused.referencing_candidates_go_too,
-  ``NA.DelUnused.still_contains_direct_refs, ``NA.DelUnused.still_closed_step,
+  ``NA.DelUnused.deleted_only_candidates, ``NA.DelUnused.still_complete,
+  ``NA.DelUnused.protected_never_deleted, ``NA.DelUnused.untouched_command_never_deleted,
+  ``NA.DelUnused.deleted_after_referrers, ``NA.DelUnused.all_candidates_deleted,
+  ``NA.DelUnused.clear_wipes_whole_entry,
   ``NA.DelUnused.deleteUnused_guards_as_modelled, ``NA.DelUnused.fixed_types_guarded,
   ``NA.DelUnused.routes_untouched_guard, ``NA.DelUnused.deleteUnused_follows_transitively,
   ``NA.DelUnused.unknown_interface_protected_regardless_of_shutdown]
